@@ -118,8 +118,11 @@ public:
       auto From = Sp->getSpecializedTemplateOrPartial();
       if (From.is<ClassTemplatePartialSpecializationDecl*>())
         return From.get<ClassTemplatePartialSpecializationDecl*>()->getLocation();
-      if (Sp->getSpecializationKind() != TSK_ExplicitSpecialization)
-        return Sp->getSpecializedTemplate()->getTemplatedDecl()->getLocation();
+      if (Sp->getSpecializationKind() != TSK_ExplicitSpecialization) {
+        const CXXRecordDecl* Pat = Sp->getSpecializedTemplate()->getTemplatedDecl();
+        if (const CXXRecordDecl* Def = Pat->getDefinition()) return Def->getLocation();
+        return Pat->getLocation();
+      }
     }
     return R->getLocation();
   }
